@@ -10,7 +10,7 @@ BASE = ("cd /repo && /venv/bin/python -m pytest -ra -q -p no:cacheprovider --tim
 # id -> (technique, level text, level note, design ref)
 CHECKS = {
     "C01": ("runtime contracts (icontract) on notes.* + exhaustive bounded sweep judged by a spelled-pitch model",
-            "Exploration: every name with <= 8 (quick) / <= 14 (thorough) accidentals in every order, hostile "
+            "Exploration: every name with <= 10 (quick) / <= 15 (thorough) accidentals in every order, all pairs of pure names up to 13 accidentals for the enharmonic clause, hostile "
             "strings by class, integers and styles are executed against the real functions; postconditions "
             "attached to the real functions observe every internal call as well. Exhaustive inside the bound, "
             "sampled beyond (accidental strings up to 2000 long).",
@@ -21,14 +21,14 @@ CHECKS = {
             "consonance predicates with both flag values. The letter/distance contracts stay attached in every other check.",
             "trusted: interval table (number, semitones) in rv/models/theory.py", "4 C02"),
     "C03": ("recorded calls of determine/from_shorthand/invert compared with an independent interval-name model",
-            "Exploration: all ordered pairs of pure names up to double (quick) / quintuple (thorough) accidentals whose "
+            "Exploration: all ordered pairs of pure names up to triple (quick) / quintuple (thorough) accidentals whose "
             "letter distance is 0..11, both forms, inverse application; names x shorthands x up/down with the "
             "up-then-down identity; random interval lists for invert (result and argument integrity).",
             "trusted: rv/models/theory.py interval_name / shorthand_apply", "4 C03"),
     "C04": ("contracts on keys.get_notes + exhaustive sweep of keys, integers and candidate strings against a circle-of-fifths model",
             "Exploration, exhaustive inside the stated bounds: all 30 keys (every clause, cold/warm/interleaved), integers "
             "-40..40 and powers of two, every string of length <= 3 (quick) / <= 4 (thorough) over 'A-G a-g # b' as a candidate "
-            "key through six entry points, 30 keys x note spellings x 6 diatonic steps.",
+            "key through six entry points, 30 keys x note spellings (<= 3 / <= 5 accidentals in every order) x 6 diatonic steps, and the same queries after a caller edited the lists it was given (cold and warm). Selected shards of C02-C08 are run a second time after ~560 unrelated read-only calls (after-history pass).",
             "trusted: line-of-fifths key model in rv/models/theory.py", "4 C04"),
     "C05": ("scale objects driven over all classes/tonics/octaves/degrees with structural oracles; recognition vs brute-force spec",
             "Exploration: 18 scale classes x tonics valid for the class (<= 2 / <= 3 accidentals) x octaves 1..3 / 1..6 x every "
@@ -36,7 +36,7 @@ CHECKS = {
             "compared with a brute-force specification built from the model's step patterns.",
             "trusted: step-pattern table and spell_scale in rv/models/theory.py", "4 C05"),
     "C06": ("contracts on chord builders + sweep of the live shorthand table against an independent chord-formula table",
-            "Exploration: every key of the live chord_shorthand table x roots (pure <= 2; thorough: every order <= 3 and pure <= 6), "
+            "Exploration: every key of the live chord_shorthand table x roots (pure <= 3; thorough: every order <= 3 and pure <= 6), "
             "named builders, alias spellings, slash basses, polychord pairs, lists, NC, three classes of malformed strings, "
             "key-set equality of the two tables and same-meaning => same-chord.",
             "trusted: rv/models/chordtab.py (formula per shorthand, following the library's documented meaning text)", "4 C06"),
@@ -55,16 +55,16 @@ CHECKS = {
             "Exploration with bounded-progress restatement of termination: every meter predicate call runs under a 20 000 "
             "line-event budget (2^1023 needs 3 074); units over integers -64..4096, 2^k up to 2^1023, floats, fractions, "
             "non-finite values; counts -10..60; value analysis on 80 constructed values and the +-1% neighbourhood at step "
-            "0.001 / 0.0001; add/subtract on 400 / 20 000 pairs.",
+            "0.0005 / 0.0001; add/subtract on 3 000 / 20 000 pairs; 3 000 / 20 000 random units.",
             "trusted: fractions.Fraction, sys.monitoring; 'terminates' is decided only as 'returns within the step budget'", "4 C09"),
     "C10": ("Note objects driven over names/octaves/integers/pairs/Hz grid; oracles = integer model, independent Helmholtz writer",
             "Exploration: pure names <= 2 / <= 4 accidentals x octaves 0..9 (pitch, four text forms, Helmholtz both ways), integers "
-            "0..127+, all ordered pairs of 105 / 1 050 notes x 6 operators, 128 notes x 5 / 201 standard pitches x detuning grid "
-            "-40..40 cents (step 10 / 1), velocity/channel bounds through five entry points, malformed names, copy independence.",
+            "0..127+, all ordered pairs of 175 / 1 050 notes x 6 operators, 128 notes x 15 / 201 standard pitches x detuning grid "
+            "-40..40 cents (step 5 / 1), velocity/channel bounds through five entry points, malformed names, copy independence.",
             "trusted: integer pitch model, math.pow for the Hz expectation", "4 C10"),
     "C11": ("Note.transpose and container/bar/track transposition driven and compared entry by entry with deep snapshots and an integer pitch model",
-            "Exploration: names (<= 2 / <= 3 accidentals) x octaves {0,1,4,8} / 0..9 x shorthands of size 0..11 x up/down with the "
-            "restore identity; 300 / 5 000 random tracks x 1-5 transposition / augment / diminish steps at track, bar or container "
+            "Exploration: names (<= 3 accidentals) x octaves {0,1,4,8} / 0..9 x shorthands of size 0..11 x up/down with the "
+            "restore identity; 1 600 / 8 000 random tracks (some with containers built from other containers) x 1-5 transposition / augment / diminish steps at track, bar or container "
             "level (accidental growth bounded so the documented +-6 re-spelling cannot intervene); octave changes around 0.",
             "trusted: integer pitch model; snapshots taken through public attributes", "4 C11"),
     "C12": ("recorded operation histories checked offline against a pitch-set model; OLD-guarded sortedness contract (M-sorted) on the add/remove family",
@@ -80,43 +80,43 @@ CHECKS = {
             "over integers/floats/non-finite units for set_meter.",
             "trusted: fractions.Fraction BarModel; float tolerance 1e-9 only for reported positions, decisions are judged exactly", "4 C13"),
     "C14": ("recorded track/composition histories checked after every step against a model track of exact rational bars",
-            "Exploration: 3 000 / 100 000 random add histories over 5 instrument choices, keys, meters, rests, in- and out-of-range notes in "
+            "Exploration: 6 400 / 100 000 random add histories over 5 instrument choices, keys, meters incl. (0,0), rests, in- and out-of-range notes in "
             "four argument forms; every sequence of length <= 3 / <= 4 over 12 operations in 4/4 and 3/4; 500 / 20 000 nested chord lists "
             "for from_chords; instrument range boundaries; 150 / 3 000 composition scripts incl. equality of rebuilt compositions.",
             "trusted: TrackModel/BarModel; the rule that a bar may be opened before a refused placement (DESIGN 5.6)", "4 C14"),
     "C15": ("fresh-interpreter (forked) cold-vs-warm comparison of a 900-query battery after random call histories; per-result poison trials; "
             "sibling-instance snapshots; argument-integrity wrapper (M-args)",
-            "Exploration: 30 / 600 random histories of 200-2 000 calls each started from a cold forked interpreter, battery answers compared "
+            "Exploration: 60 / 600 random histories of 200-2 000 calls each started from a cold forked interpreter, battery answers compared "
             "with a cold interpreter's; 150 / all (~500) poison trials, one forked interpreter each; 19 public classes under operation "
             "scripts on sibling instances (object state, class-level mutables, fresh instance); copies and constructor arguments; "
             "2 000 / 100 000 frequency-lookup histories concentrated at the top of the table.",
             "trusted: os.fork as the source of cold interpreter states; canonical repr of answers", "4 C15"),
     "C16": ("bytes written by the five write_* functions decoded by an independent Standard MIDI File reader and compared with a tick timeline model",
-            "Exploration: 1 500 / 60 000 random notes/containers/bars/tracks/compositions (30 keys, 8 meters, rounding and integral tick "
-            "lengths, rests everywhere, channels 0-15, velocity 0 class, MIDI instruments, repeat 0-2), systematic 30 keys x 12 meters, "
+            "Exploration: 4 000 / 60 000 random notes/containers/bars/tracks/compositions (30 keys, 8 meters, rounding and integral tick "
+            "lengths, rests everywhere incl. empty containers, channels 0-15, velocity 0 class, MIDI instruments and plain instruments carrying instrument_nr, names up to 300 characters, repeat 0-2), systematic 30 keys x 12 meters, "
             "every value x 6 rest patterns x bar/track x repeat, bpm grid; VLQ encoder on [0, 70 000) / all of [0, 2^21) + boundaries + "
             "random up to 2^28.",
             "trusted: rv/models/smf.py (strict structure, permissive content), rv/models/midimodel.py timeline", "4 C16"),
     "C17": ("write_Composition -> MIDI_to_Composition round trip compared as merged (ticks, pitch set) sequences; corrupted-file fault injection",
-            "Exploration: 800 / 40 000 random compositions restricted to whole-tick values and velocity >= 1; every bpm 4..1000 (+ sample "
+            "Exploration: 2 400 / 40 000 random compositions restricted to whole-tick values and velocity >= 1; every bpm 4..1000 (+ sample "
             "to 7 000); 30 keys x 8 meters; VLQ writer->reader on [0, 40 000) / all of [0, 2^21) + boundaries + random; files that are not "
             "MIDI made by editing valid files: every value of every header/track tag byte, format words 3..300 and 2^k, truncations 0..13, "
             "empty file (300 sampled / all ~10^4).",
             "trusted: the sequence-merging rule stated in the property; smf.py to confirm the base files are valid before corruption", "4 C17"),
     "C18": ("hook events of a recording Sequencer subclass and a recording observer checked offline against a per-voice interval model in virtual time",
-            "Exploration: 1 500 / 50 000 playbacks (note, container, bar, track, parallel bars/tracks/compositions with 1-4 tracks, equal and "
+            "Exploration: 6 400 / 80 000 playbacks (note, container, bar, track, parallel bars/tracks/compositions with 1-4 tracks, equal and "
             "unequal rhythms, tuplets, rests, tempo-carrying containers), control-change grid around the bounds, attach/detach scripts; the "
             "two former findings of play_Bars (unequal rhythms, float tick drift) are replayed as fixed regression inputs in every run.",
             "trusted: interval model (rv/props/c18.py model_parallel); virtual time = running sum of sleep arguments", "4 C18"),
     "C19": ("LilyPond and MusicXML text decoded by independent readers (own tokenizer/parser; xml.etree) and compared with the written specification",
-            "Exploration: 3 000 / 100 000 random notes, containers, bars, tracks, compositions (names to double accidentals, octaves 0-8, 30 "
+            "Exploration: 8 000 / 100 000 random notes, containers, bars, tracks, compositions (names to double accidentals, octaves 0-8, 30 "
             "keys, 7 meters incl. (0,0), dots to 3, three tuplets, longa/breve, chords 1-5, rests, empty bars, markup characters in "
             "texts) + systematic every value x rest/note/chord, 30 keys x 7 meters x empty/non-empty, every name x octave.",
             "trusted: rv/models/ly.py, rv/models/mxml.py", "4 C19"),
     "C20": ("fret arithmetic swept over all tunings; fingerings vs brute-force specification; tablature text decoded column by column",
             "Exploration: 76 tunings x strings x notes 0..127 x maxfret {0,12,24}, get_Note ranges, tuning lookups over prefixes x string x "
-            "course constraints, 1 500 / 40 000 note sets vs brute force, 1 680 / ~10 000 chord-fingering searches judged per result, "
-            "2 000 / 60 000 tablature renders (note, container, bar, track, composition; widths 30-200; non-course tunings) decoded by "
+            "course constraints, 4 000 / 40 000 note sets vs brute force, 1 680 / ~10 000 chord-fingering searches judged per result, "
+            "4 800 / 60 000 tablature renders (note, container, bar, track, composition; widths 30-200; non-course tunings) decoded by "
             "an independent reader; renders where an entry has no spare column are skipped and counted.",
             "trusted: brute-force enumeration, rv/models/tab.py; domain rule read off the rendered beat markers", "4 C20"),
 }
